@@ -322,10 +322,18 @@ def structure_rules(run, model):
             if cf in (fn_f, fn_p):
                 called.add(cf.name)
     run.check(len(called) == 2, "C04.namespace-only", fi.qual + ":dispatch", "functions (incl. static/class methods) and properties are both passed to their decoration pass", "only %s called" % sorted(called), fi.loc())
-    # ---- override-target: the three stores target the checker of the namespace's own function
+    override_target(run, model)
+    # ---- property accessor matching (3 rows): func == value.X  =>  base accessor X / replaced accessor X
+    _accessor_rows(run, model)
+
+
+def override_target(run, model, rule="C04.override-target", only=None):
+    """The merged lists are stored on the checker of the namespace's own function (the object the wrapper reads)."""
     for kind, nf in meta.namespace_fns(model).items():
         factory = model.func("_checkers.decorate_with_checker")
         for dunder, lst in sorted(nf.stores.items()):
+            if only is not None and dunder not in only:
+                continue
             for n, target, val in lst:
                 alts = target[1] if target[0] == "phi" else (target,)
                 ok = True
@@ -336,8 +344,10 @@ def structure_rules(run, model):
                     own = a[0] == "call" and cf in (nf.finder, factory) and not any(s == ("elem", ("param", nf.bases_p)) for s in subterms(a))
                     if not own:
                         ok = False
-                run.check(ok, "C04.override-target", "%s:%s" % (nf.fi.qual, dunder), "stored on the checker found on / created for the namespace's own function", "the merged list is stored on %s, not on the checker of the function being defined (a base's checker would be rewritten)" % show(strip_sites(target), 100), nf.fi.loc(n), None, first_line(n.stmt))
-    # ---- property accessor matching (3 rows): func == value.X  =>  base accessor X / replaced accessor X
+                run.check(ok, rule, "%s:%s" % (nf.fi.qual, dunder), "stored on the checker found on / created for the namespace's own function", "the merged list is stored on %s, not on the checker of the function being defined (a base's checker would be rewritten, or the real checker never sees the inherited contracts)" % show(strip_sites(target), 100), nf.fi.loc(n), None, first_line(n.stmt))
+
+
+def _accessor_rows(run, model):
     nfp = meta.namespace_fns(model)["property"]
     n_rows = 0
     role_of_local = {}
